@@ -1,6 +1,7 @@
 package main
 
 import (
+	"fmt"
 	"go/token"
 	"go/types"
 	"go/constant"
@@ -29,6 +30,10 @@ func runC04(p *Program, r *Report) {
 	ruleR047(p, r)
 	r.Rule("R04.8", "E1", 4, "bound values are indexed in range: in the query encryptors of both dialects every index into the bound values that comes from the placeholder map (a map key), from a subtraction or from a parsed number is proven 0 <= i < len(values) where it is used (a literal recorded as placeholder 0, or a Bind carrying fewer values than the statement has placeholders, otherwise panics the connection handler and the statement is never protected)")
 	boundsRuleK(p, r, "R04.8", []string{"encryptor/postgresql/queryDataEncryptor.go", "encryptor/mysql/queryDataEncryptor.go"}, r048Confirmed, false)
+	r.Rule("R04.9", "E2", 2, "result and parameter format codes are read by the protocol rule only (same rule as R19.7): a column that is not the first one is otherwise decoded and re-encoded in the wrong format and the owner does not read back what was written")
+	ruleFormatCodes(p, r, "R04.9")
+	r.Rule("R04.10", "E2", 6, "the shared configuration is read-only for the statement handlers: a slice handed out by the table schema (TableSchema.Columns, the schema store's listings) is never the base of an append and never stored into by the packages that process statements and rows - the schema store is shared by every session, so a write through such a slice changes the configured column order for all later statements")
+	ruleR0410(p, r)
 	r.Rule("R04.5", "E3", 1, "the settings-only MySQL query observer never encrypts: every path to the data encryptor of encryptor/mysql.QueryDataEncryptor passes the 'encryptor == nil' guard, in the function or in all of its callers")
 	ruleR045(p, r)
 }
@@ -648,4 +653,104 @@ func init() {
 	mut("C04", "pg: a literal is recorded as placeholder 0 again (original defect)", "encryptor/postgresql/queryDataEncryptor.go", "		if valueIndex < 0 || valueIndex >= len(oldValues) {", "		if valueIndex >= len(oldValues) {", "R04.8", "encryptValuesWithPlaceholders")
 	mut("C04", "pg: Bind with fewer values than placeholders indexes past the end (original defect)", "encryptor/postgresql/queryDataEncryptor.go", "		if valueIndex < 0 || valueIndex >= len(oldValues) {", "		if valueIndex < 0 {", "R04.8", "encryptValuesWithPlaceholders")
 	mut("C04", "pg: placeholder index compared with the wrong end", "encryptor/postgresql/queryDataEncryptor.go", "		if valueIndex < 0 || valueIndex >= len(oldValues) {", "		if valueIndex < 0 || valueIndex > len(oldValues) {", "R04.8", "encryptValuesWithPlaceholders")
+}
+
+// ---- R04.10
+func ruleR0410(p *Program, r *Report) {
+	n := 0
+	for _, fn := range p.srcFns {
+		pp := strings.TrimPrefix(fnPkgPath(fn), acraMod+"/")
+		if !(strings.HasPrefix(pp, "encryptor/") || strings.HasPrefix(pp, "decryptor/") || strings.HasPrefix(pp, "pseudonymization") || strings.HasPrefix(pp, "hmac") || strings.HasPrefix(pp, "masking")) || strings.HasPrefix(pp, "encryptor/base/config") {
+			continue
+		}
+		shared := map[ssa.Value]bool{}
+		var work []ssa.Value
+		add := func(v ssa.Value) {
+			if v != nil && !shared[v] {
+				shared[v] = true
+				work = append(work, v)
+			}
+		}
+		for _, b := range fn.Blocks {
+			for _, in := range b.Instrs {
+				c, ok := in.(*ssa.Call)
+				if !ok || !c.Call.IsInvoke() || c.Call.Method.Name() != "Columns" {
+					continue
+				}
+				if _, isSlice := c.Type().Underlying().(*types.Slice); isSlice && strings.Contains(c.Call.Value.Type().String(), "config.TableSchema") {
+					add(c)
+				}
+			}
+		}
+		if len(work) == 0 {
+			continue
+		}
+		for len(work) > 0 {
+			v := work[len(work)-1]
+			work = work[:len(work)-1]
+			refs := v.Referrers()
+			if refs == nil {
+				continue
+			}
+			for _, rf := range *refs {
+				switch x := rf.(type) {
+				case *ssa.Phi:
+					add(x)
+				case *ssa.Slice:
+					if x.X == v {
+						add(x)
+					}
+				case *ssa.Store:
+					if x.Val == v {
+						if al, ok := x.Addr.(*ssa.Alloc); ok && al.Referrers() != nil {
+							for _, ar := range *al.Referrers() {
+								if u, ok := ar.(*ssa.UnOp); ok {
+									add(u)
+								}
+							}
+						}
+					}
+				}
+			}
+		}
+		for v := range shared {
+			if c, isCall := v.(*ssa.Call); isCall && c.Call.IsInvoke() {
+				n++
+			}
+			refs := v.Referrers()
+			if refs == nil {
+				continue
+			}
+			for _, rf := range *refs {
+				switch x := rf.(type) {
+				case *ssa.Call:
+					if b, ok := x.Call.Value.(*ssa.Builtin); ok && b.Name() == "append" && len(x.Call.Args) > 0 && x.Call.Args[0] == v {
+						r.Bad("R04.10", fnName(fn), "append onto the schema's column list", p.Pos(x.Pos()), "a slice handed out by TableSchema.Columns() is the base of an append: whenever its capacity allows, the new elements are written into the schema store's own array, which every session shares - a later statement is mapped onto the wrong columns and its protected value goes out in clear")
+					}
+					if b, ok := x.Call.Value.(*ssa.Builtin); ok && b.Name() == "copy" && len(x.Call.Args) > 0 && x.Call.Args[0] == v {
+						r.Bad("R04.10", fnName(fn), "copy into the schema's column list", p.Pos(x.Pos()), "the schema store's own column list is overwritten")
+					}
+				case *ssa.IndexAddr:
+					if x.X != v || x.Referrers() == nil {
+						continue
+					}
+					for _, ir := range *x.Referrers() {
+						if st, ok := ir.(*ssa.Store); ok && st.Addr == ssa.Value(x) {
+							r.Bad("R04.10", fnName(fn), "store into the schema's column list", p.Pos(st.Pos()), "an element of the schema store's own column list is overwritten: every session shares that list")
+						}
+					}
+				}
+			}
+		}
+	}
+	for i := 0; i < n; i++ {
+		r.OK("R04.10", "statement handlers", fmt.Sprintf("TableSchema.Columns() use #%d", i+1), "-", "read only")
+	}
+	if n < 6 {
+		r.Bad("R04.10", "statement handlers", "uses of TableSchema.Columns()", "-", fmt.Sprintf("%d uses found, 10 confirmed by reading", n))
+	}
+}
+
+func init() {
+	mut("C04", "INSERT column list built by re-slicing the schema's own column list", "encryptor/postgresql/queryDataEncryptor.go", "	} else if cols := schema.Columns(); len(cols) > 0 {\n		columnsName = cols\n	}", "	} else if cols := schema.Columns(); len(cols) > 0 {\n		columnsName = append(cols[:0], cols...)\n	}", "R04.10", "append onto")
 }
